@@ -259,6 +259,19 @@ def h_scenario3d(env, kind="tail_cut"):
              ((-3.0, -33.0, 0.0), (-3.0, -60.0, 0.0)),                        # r2: follows r (link 3)
              ((E[0], 0.0, gx), (0.0, 0.0, 80.0))]                             # x1: entry gx (< gr) from b1's exit -> tail (r, r2) cut
         env.assume(env.ge(dmax, 3.5))
+    elif kind == "stale_flag":
+        # two chains b1-b2-b3 and c1-c2-c3; p cuts b1 off (prefix before b2); s1 is appended after b1 (a successful suffix append);
+        # then the TWO-particle chain n1-n2 connects only at its front, before c2, cutting c1 off: state left by the earlier
+        # append must not leak into this prefix connection
+        gb, gp, gs, gn = g[0], g[1], g[2], g[3]
+        env.assume(env.and_(env.lt(gp, gb), env.lt(gn, gb), env.lt(gb, gs), env.le(gs, dmax), env.ge(gb, 3.5), env.ge(dmax, 4.5), env.le(dmax, 5.5)))
+        P = []
+        for y in (0.0, 100.0):
+            P += [((0.0, y, 0.0), (6.0, y, 0.0)), ((6.0 + gb, y, 0.0), (12.0 + gb, y, 0.0)), ((16.0 + gb, y, 0.0), (22.0 + gb, y, 0.0))]
+        P += [((6.0 + gb, 9.0, 0.0), (6.0 + gb, gp, 0.0)),                    # p : ends gp (< gb) above the entry of b2
+              ((6.0, -gs, 0.0), (6.0, -gs - 6.0, 0.0)),                       # s1: entry gs (> gb) below the exit of b1
+              ((6.0 + gb, 119.0, 0.0), (6.0 + gb, 113.0, 0.0)),               # n1
+              ((6.0 + gb, 109.0, 0.0), (6.0 + gb, 100.0 + gn, 0.0))]          # n2: 4 below n1's exit; ends gn (< gb) above the entry of c2
     elif kind == "ring":
         # P -> X is traced; T cuts P off by prefixing X; the later chain S1 -> S2 starts in reach of P's exit and ends in reach
         # of P's entry: connecting BOTH of its ends to the (one-particle) chain P would close a ring - chains must stay simple
@@ -300,6 +313,8 @@ def jobs(tier, seed):
     fams = [("h_family", {"fam": seed * 1000 + f, "n": 5 if f % 2 == 0 else 4, "sym": [f % 4], "min_zero": f % 3 != 0}) for f in range(nf)]
     scen = [("h_scenario", {"kind": "head_cut_then_append"}), ("h_scenario", {"kind": "prefix_kept"}), ("h_scenario", {"kind": "both_sides"}),
             ("h_scenario3d", {"kind": "tail_cut"}), ("h_scenario3d", {"kind": "both_sides_head_cut"}), ("h_scenario3d", {"kind": "ring"}), ("h_two_tomograms", {})]
+    if tier == "thorough":
+        scen.append(("h_scenario3d", {"kind": "stale_flag"}))
     if tier == "thorough":
         scen += [("h_scenario", {"kind": k, "order": list(o)}) for k in ("head_cut_then_append", "prefix_kept", "both_sides") for o in itertools.permutations(range(4)) if list(o) != [0, 1, 2, 3] and (k != "both_sides" or o[0] < o[1])]
     j = j[:2] + scen + fams + j[2:]
